@@ -2,16 +2,18 @@
 # copy whatever the round-5 authors have delivered so far into seeded/.incoming (kept in git
 # so that a sandbox restore cannot lose it again); confirmation happens later (seedcheck.sh)
 cd "$(dirname "$0")/.."
-for d in /tmp/r5/out/C*/[abc]; do
+for d in /tmp/r5/out/C*/[abc] /tmp/r6/out/C*/[ab]; do
   [ -f "$d/patch.diff" ] || continue
   p=$(basename $(dirname $d)); x=$(basename $d)
-  t=seeded/.incoming/R5-$p-$x; mkdir -p $t
+  R=R5; case $d in /tmp/r6/*) R=R6;; esac
+  t=seeded/.incoming/$R-$p-$x; mkdir -p $t
   cp $d/patch.diff $d/*_test.go $d/README.md $t/ 2>/dev/null
 done
-for d in /tmp/b5/out/B*/[0-9]*; do
+for d in /tmp/b5/out/B*/[0-9]* /tmp/b6/out/B*/[0-9]*; do
   [ -f "$d/patch.diff" ] || continue
   b=$(basename $(dirname $d)); x=$(basename $d)
-  t=benign/.incoming/R5-$b-$x; mkdir -p $t
+  R=R5; case $d in /tmp/b6/*) R=R6;; esac
+  t=benign/.incoming/$R-$b-$x; mkdir -p $t
   cp $d/patch.diff $d/README.md $t/ 2>/dev/null
 done
 ls seeded/.incoming 2>/dev/null | wc -l; ls benign/.incoming 2>/dev/null | wc -l
